@@ -59,6 +59,9 @@ class StmtMixin:
                 raise Unsupported('yield outside a function declared as generator')
             val = self.ev(s.value.value)
             t = cur.t
+            if isinstance(val.t, TPkt) and t.elem is TBytes:
+                # a packet object yielded where octets are expected: taken as its encoding
+                val = self.pkt_bytes(val)
             new = self.opaque_list(V(t, L.l_append(t, cur.z, coerce(val, t.elem).z)))
             self.frame.locals['_yielded'] = new
             return
